@@ -564,7 +564,6 @@ package lisp
 //@   assert-at eval~return_fenv.eval(ctx,_body[len(body)-1]) [last-form-is-terminal-unless-macro] fun.FunType != LFunMacro ==> env.Runtime.Stack.Frames[len(env.Runtime.Stack.Frames)-1].Terminal
 //@   ensures  [frames-below-top-keep-their-flags] FLAGSBELOW(env, old(len(env.Runtime.Stack.Frames)) - 1)
 //@   ensures-on-panic [frames-below-top-keep-their-flags-on-panic] FLAGSBELOW(env, old(len(env.Runtime.Stack.Frames)) - 1)
-//@   loop 1 (_) invariant [the-callers-package-is-remembered] *local("outer") == old(env.Runtime.Package)
 //@   ensures-on-panic [a-cross-package-call-restores-the-callers-package-on-panic] called("Package") && old(env.Runtime.Package.Name) != ret("Package", 0) && old(env.Runtime.Registry.packages)[ret("Package", 0)] != nil ==> env.Runtime.Package == old(env.Runtime.Package)
 //@   property C05 C02 C09 C08
 
